@@ -40,10 +40,18 @@ type family struct {
 	histSlot int // -1: none
 	histLen  int
 	histSl2  bool // slice steps also in the two-step histories
+	// receiver lives (life.go): every life of 1..lifeLen steps of the receiver (0: none)
+	lifeLen int
+	// the judged call goes through the concrete method of the receiver's type (conc.go);
+	// only the storage combinations with one storage class for all containers
+	conc bool
 }
 
 // hists: the histories enumerated inside the family ("" = none).
 func (f *family) hists() []string {
+	if f.lifeLen > 0 {
+		return lives(f.slots[0], f.lifeLen)
+	}
 	if f.histSlot < 0 {
 		return []string{""}
 	}
@@ -205,7 +213,31 @@ func storages(f *family) []string {
 		}
 		res = nx
 	}
+	if f.conc {
+		var nx []string
+		for _, st := range res {
+			if homogeneous(st) {
+				nx = append(nx, st)
+			}
+		}
+		res = nx
+	}
 	return res
+}
+
+// typesFor: the element types run under storage stor (a concrete-method family: those
+// whose container type has the method).
+func (f *family) typesFor(stor string) []*tinfo {
+	if !f.conc {
+		return f.types
+	}
+	var r []*tinfo
+	for _, t := range f.types {
+		if concAvailable(f.op, f.dims, t, stor) {
+			r = append(r, t)
+		}
+	}
+	return r
 }
 
 func defaultStor(slots [3]slot) [3]string {
